@@ -12,6 +12,11 @@ binding: spec -> code: every exported case is executed against the REAL entry_po
          code -> spec: the observed final state of each execution is a one-step trace validated
          by TLC (Trace_RunLifecycle), which also names the set of known deviations that
          reproduces the observation exactly.
+stock  : gallia's OWN commands that open / use / hand over the database connection of their run
+         (`script rerun --id N --db FILE | --file META.json`, `discover doip --db FILE`) through
+         the real entry_point() (select_stock / c15_worker.stock_case): one trace for the stock
+         command's own run (case = its resources + the way its run() was seen to end) and one
+         for the command it ran again (case = the recorded one); same contract, same trace spec.
 """
 
 from __future__ import annotations
@@ -48,6 +53,7 @@ PREHOOK_BASE = 9_000_000
 GLITCH_BASE = 9_500_000
 CASE_OPTS = ("flavour", "dbfail", "nested", "ping", "dbglitch")  # per-case options outside the design's case space
 CLI_BASE = 100000
+STOCK_BASE = 50_000   # stock commands of gallia itself (in-process); ids in steps of 2: own run, re-run command
 EXIT_GRACE_S = 30
 NPAR = max(2, min(12, (os.cpu_count() or 4) - 4))
 
@@ -225,15 +231,26 @@ def run_cli_case(bench: Bench, case: dict[str, Any]) -> dict[str, Any]:
     return {"id": case["id"], "o": o}
 
 
-def execute(bench: Bench, inproc: list[dict[str, Any]], cli: list[dict[str, Any]]) -> dict[int, dict[str, Any]]:
+def execute(bench: Bench, inproc: list[dict[str, Any]], cli: list[dict[str, Any]],
+            stock: list[dict[str, Any]] | None = None) -> dict[int, dict[str, Any]]:
     nsh = max(1, min(NPAR, len(inproc) // 8 or 1))
     shards: list[list[dict[str, Any]]] = [[] for _ in range(nsh)]
     for i, cs in enumerate(inproc):
         shards[i % nsh].append(cs)
+    # stock commands run in workers of their own (the slow ones, which wait for network timeouts, apart)
+    stock = stock or []
+    slow = [cs for cs in stock if cs["stock"].get("slow")]
+    fast = [cs for cs in stock if not cs["stock"].get("slow")]
+    nst = max(1, min(3, len(fast) // 6 or 1))
+    sshards: list[list[dict[str, Any]]] = [fast[i::nst] for i in range(nst)] + [[cs] for cs in slow]
     out: dict[int, dict[str, Any]] = {}
-    with ThreadPoolExecutor(max_workers=NPAR) as ex:
+    with ThreadPoolExecutor(max_workers=NPAR + len(sshards)) as ex:
+        sfuts = [ex.submit(run_inproc_shard, bench, 1000 + k, sh) for k, sh in enumerate(sshards) if sh]
         futs = [ex.submit(run_inproc_shard, bench, k, sh) for k, sh in enumerate(shards) if sh]
         cfuts = [ex.submit(run_cli_case, bench, cs) for cs in cli]
+        for f in sfuts:
+            for r in f.result():
+                out[r["id"]] = r   # {"o", "c", "nested"} or {"skipped"}
         for f in futs:
             for r in f.result():
                 out[r["id"]] = r["o"]
@@ -351,6 +368,99 @@ def select_cases(cases: list[dict[str, Any]], tier: str, seed: int) -> tuple[lis
     return a, b
 
 
+RECORDED = (  # (kind, point, how, n, where) of the recorded run that `script rerun` runs again; "ping" = stock primitive
+    ("Script", "Main", "Return", 0, "pre"),
+    ("Script", "Main", "SysExit", 3, "pre"),
+    ("Script", "Teardown", "Unexpected", 0, "pre"),
+    ("Script", "Setup", "SysExit", 3, "pre"),
+    ("Script", "Main", "KbdInt", 0, "pre"),
+    ("UDSScanner", "Main", "Return", 0, "pre"),
+    ("UDSScanner", "Main", "ExpConn", 0, "pre"),
+    ("Scanner", "Teardown", "SysExit", 3, "post"),
+    ("ping", "Main", "Return", 0, "pre"),
+)
+RES3 = ((True, True, True), (False, False, False), (True, False, False), (False, True, True))  # art, lock, hooks
+
+
+def select_stock(tier: str) -> list[dict[str, Any]]:
+    """Stock commands that open / use / hand over the database connection of their own run, through the real
+    entry_point(): `script rerun` (--id N --db FILE / --file META.json [--db FILE] / an id that does not exist) over
+    recorded runs of every base kind with different endings, and `discover doip` (ends before / after it has
+    written to the database).  Each {"id", "c": resources of the stock command's own run, "stock": scenario}."""
+    out: list[dict[str, Any]] = []
+
+    def outer(art: bool, db: bool, lock: bool, hooks: bool) -> dict[str, Any]:
+        return {"kind": "Script", "art": art, "db": db, "lock": lock, "hooks": hooks, "point": "Main", "how": "Stock",
+                "n": 0, "where": "pre"}
+
+    def rec(k: int, art: bool, db: bool, lock: bool, hooks: bool) -> dict[str, Any]:
+        kind, point, how, n, where = RECORDED[k]
+        r: dict[str, Any] = {"c": {"kind": "UDSScanner" if kind == "ping" else kind, "art": art, "db": db, "lock": lock,
+                                   "hooks": hooks, "point": point, "how": how, "n": n, "where": where}}
+        if kind == "ping":
+            r["prim"] = "ping"
+        return r
+
+    def add(c: dict[str, Any], sc: dict[str, Any]) -> None:
+        out.append({"id": STOCK_BASE + 2 * len(out), "c": c, "stock": sc})
+
+    full = tier == "thorough"
+    for k in range(len(RECORDED)):
+        # --id N --db FILE: the recorded run had a database; its other resources vary
+        for j, (art, lock, hooks) in enumerate(RES3):
+            if full or j == k % 4 or (j == 0 and k in (1, 5)):
+                ra, rl, rh = RES3[(j + k) % 4]
+                add(outer(art, True, lock, hooks), {"cmd": "rerun", "via": "id", "rec": rec(k, ra, True, rl, rh)})
+        # --file META.json, with and without a database of its own: the recorded run had an artifacts directory
+        for j, (art, lock, hooks) in enumerate(RES3):
+            for db in (True, False):
+                if full or (j == (k + 1) % 4 and db == (k % 2 == 0)) or (j == 0 and db and k in (2, 6)):
+                    _, rl, rh = RES3[(j + k + 1) % 4]
+                    add(outer(art, db, lock, hooks),
+                        {"cmd": "rerun", "via": "file", "rec": rec(k, True, (j + k) % 2 == 0, rl, rh)})
+    # an id that is not in the database: the command gives up after the lookup
+    for art, lock, hooks in (RES3 if full else RES3[:2]):
+        add(outer(art, True, lock, hooks), {"cmd": "rerun", "via": "missing-id", "rec": rec(0, True, True, False, False)})
+    # discover doip: gives up on the target's scheme before it touches the database / after it has recorded the
+    # discovery run (nothing listens on the target: two UDP waits of 2 s, then the TCP connects are refused)
+    for j, (art, lock, hooks) in enumerate(RES3 if full else RES3[:2]):
+        for db in (True, False):
+            if full or db or j == 0:
+                add(outer(art, db, lock, hooks), {"cmd": "doip", "target": "scheme"})
+        if full or j == 0:
+            add(outer(art, True, lock, hooks), {"cmd": "doip", "target": "closed", "slow": True})
+    return out
+
+
+def stock_traces(stock: list[dict[str, Any]], obs: dict[int, dict[str, Any]], rep: Report) -> list[dict[str, Any]]:
+    """Two one-step traces per scenario: the stock command's own run (case = its resources + the way its run() was
+    seen to end) and the command it ran again (case = the recorded one)."""
+    traces: list[dict[str, Any]] = []
+    n_nested = n_skipped = 0
+    for cs in stock:
+        r = obs[cs["id"]]
+        if "skipped" in r:
+            n_skipped += 1
+            rep.drift.append({"mode": "inproc", "stock": cs["stock"], "note": r["skipped"]})
+            continue
+        traces.append({"id": cs["id"], "c": r["c"], "o": r["o"], "expect": None,
+                       "opts": {"stock": cs["stock"], "part": "own", "res": cs["c"]}})
+        if r.get("nested"):
+            n_nested += 1
+            traces.append({"id": cs["id"] + 1, "c": r["nested"]["c"], "o": r["nested"]["o"], "expect": None,
+                           "opts": {"stock": cs["stock"], "part": "re-run", "res": cs["c"]}})
+        elif cs["stock"]["cmd"] == "rerun" and cs["stock"]["via"] != "missing-id":
+            rep.drift.append({"mode": "inproc", "stock": cs["stock"],
+                              "note": "the recorded command was not seen to be run again in this process"})
+    rep.extra["stock"] = {"scenarios": len(stock), "own_runs": len(traces) - n_nested, "re_runs": n_nested,
+                          "skipped": n_skipped,
+                          "endings": sorted({f"{t['c']['how']}({t['c']['n']})" for t in traces
+                                             if t["opts"]["part"] == "own"})}
+    if stock and (n_nested == 0 or len(traces) - n_nested < len(stock) // 2):
+        raise Machinery(f"stock command family is vacuous: {rep.extra['stock']}")
+    return traces
+
+
 def sigs_for(c: dict[str, Any], v: dict[str, Any], k: int) -> list[dict[str, Any]]:
     """One signature per known deviation that TLC holds responsible for broken clause k of this trace."""
     if v["explain"] == ["none"]:
@@ -370,14 +480,18 @@ def process(rep: Report, traces: list[dict[str, Any]], verdicts: dict[int, dict[
         if effective(c) and (c["how"] == "DbFails" or (c["kind"] == "Script" and c["how"] in ("ExpConn", "ExpUds"))):
             unspecified += 1
         obs = {k: t["o"][k] for k in OBS_KEYS}
+        st = t.get("opts", {}).get("stock")
         if v["verdict"] != "ok":
             for k, lab in enumerate(v["labels"]):
                 for sig in sigs_for(c, v, k):
+                    if st:
+                        sig = dict(sig, stock=f"{st['cmd']} {st.get('via', st.get('target'))}", run=t["opts"]["part"])
                     devhits[sig["explained_by"]] = devhits.get(sig["explained_by"], 0) + 1
                     rep.violate(lab, sig, {"mode": mode, "case": c, "opts": t.get("opts", {}), "observed": obs,
                                            "expected_by_design": t.get("expect"), "all_broken": v["labels"],
                                            "explain": v["explain"], "raw": t["o"].get("_raw")})
-        elif v["explain"] != []:
+        elif v["explain"] != [] and not (st and (t["opts"]["part"] == "own" or st.get("rec", {}).get("prim"))):
+            # (the design layer models the test commands, not gallia's own commands)
             rep.drift.append({"mode": mode, "case": c, "observed": obs, "design": t.get("expect"),
                               "reproduced_by_deviations": v["explain"]})
         raw = t["o"].get("_raw", {})
@@ -442,7 +556,10 @@ def run(tier: str, seed: int) -> Report:
                 "UDSScanner subclasses) in worker processes, one per case exported by TLC from the design model "
                 "(kind x {artifacts, db, lockfile, hooks} on/off x (point, how) x where), against a RandomUDSServer "
                 "on a unix socket; observed from outside: exit status, META.json, run_meta row (sqlite3), "
-                "log.json.zst (zstd frame end + PenlogReader), flock probe, hook environment, phases entered. "
+                "log.json.zst (zstd frame end + PenlogReader), flock probe, hook environment, phases entered; plus "
+                "gallia's own `script rerun` (by run_meta id / by META.json, with and without a database, unknown id) "
+                "over recorded runs of the test commands and of `primitive uds ping`, and `discover doip`, each judged "
+                "for the stock command's own run and for the re-run command. "
                 "distinct = distinct (mode, case); non-trivial = the injected failure is effective (its resource is on)")
     rep.assumptions = [
         "inproc mode derives the process status from entry_point()'s outcome the way `sys.exit(asyncio.run(...))` "
@@ -455,6 +572,11 @@ def run(tier: str, seed: int) -> Report:
         "one injected failure per run; SIGINT is delivered while the command awaits inside setup/main/teardown",
         "exit codes where the statement is silent (plain script raising ConnectionError/UDSException: 70 or 74; DB "
         "open failure: any non-zero; failing run_meta update: 0 or a sysexits code) are counted as unspecified",
+        "stock commands: the kind of ending fed to the exit-code mapping is the one run() was seen to end with "
+        "(returned / sys.exit(n)); any other ending demands no particular exit code, only META / log / lock / run_meta "
+        "consistent with it. Whether `script rerun` passes the re-run command's exit code on is not demanded. The "
+        "re-run command is judged as the run its own config describes; its exit code is what its entry_point() "
+        "returned. Marker records of the re-run command in the stock command's log are not demanded",
     ]
     mc = ModelCheck()
     bench = None
@@ -462,14 +584,17 @@ def run(tier: str, seed: int) -> Report:
         cases = mc.cases(rep)
         rep.extra["tlc_cases"] = len(cases)
         inproc, cli = select_cases(cases, tier, seed)
+        stock = select_stock(tier)
         bench = Bench()
         t0 = time.time()
         # the mutant environment of the binding self-test rides along with the in-process cases
-        obs = execute(bench, inproc + [{"id": MUTANT_ID, "c": MUTANT_CASE, "mutant": "post-hook-removes-meta"}], cli)
+        obs = execute(bench, inproc + [{"id": MUTANT_ID, "c": MUTANT_CASE, "mutant": "post-hook-removes-meta"}], cli,
+                      stock)
         rep.extra["execution_wall_s"] = round(time.time() - t0, 1)
         traces = [{"id": cs["id"], "c": cs["c"], "o": obs[cs["id"]], "expect": cs["expect"],
                    "opts": {k: cs[k] for k in CASE_OPTS if k in cs}} for cs in inproc + cli]
         base = pick_base(traces)
+        traces += stock_traces(stock, obs, rep)
         # corrupt the recorded trace of the plain run and, in case the code under test breaks even that
         # one, also the trace TLC itself expects for it (accepted by construction)
         ideal = {"id": SELF_BASE - 1, "c": base["c"], "o": base["expect"]}
@@ -506,14 +631,15 @@ def run(tier: str, seed: int) -> Report:
         mc.close()
         if bench is not None:
             bench.close()
-    rep.extra["executed"] = {"inproc": len(inproc), "cli": len(cli),
+    rep.extra["executed"] = {"inproc": len(inproc), "cli": len(cli), "stock": len(stock),
                              "cli_sigint": sum(1 for cs in cli if cs["c"]["how"] == "CtrlC")}
     rep.exhaustive = tier == "thorough"
     rep.extra["exhaustive_space"] = (
         "thorough: the complete TLC case space (1696 cases): all 1488 non-SIGINT cases in inproc mode, all 208 "
         "real-SIGINT cases in cli mode, plus the non-SIGINT cases of 4 resource sets again in cli mode; "
         "quick: Script kind x all 16 resource sets, scanner kinds x 4 resource sets (inproc), all SIGINT cases with "
-        "every resource on + seeded samples (cli)")
+        "every resource on + seeded samples (cli); the stock-command scenarios are a fixed selection in quick and "
+        "the full product recorded run x flavour x 4 resource sets in thorough")
     rep.extra["deviations_modelled"] = DEV_NAMES
     return rep
 
@@ -532,11 +658,25 @@ def replay(path: str) -> int:
             if key not in todo:
                 todo[key] = {"id": (CLI_BASE if d["mode"] == "cli" else 0) + len(todo), "c": d["case"],
                              **d.get("opts", {})}
-        obs = execute(bench, [cs for k, cs in todo.items() if k[0] == "inproc"],
-                      [cs for k, cs in todo.items() if k[0] == "cli"])
-        traces = [{"id": cs["id"], "c": cs["c"], "o": obs[cs["id"]]} for cs in todo.values()]
+        obs = execute(bench, [cs for k, cs in todo.items() if k[0] == "inproc" and "stock" not in cs],
+                      [cs for k, cs in todo.items() if k[0] == "cli"],
+                      [dict(cs, c=cs["res"]) for cs in todo.values() if "stock" in cs])
+        traces = []
+        for cs in todo.values():
+            r = obs[cs["id"]]
+            if "stock" in cs:  # the scenario is run again; the trace is the run the violation was seen on
+                r = r if cs["part"] == "own" else (r.get("nested") or {})
+                if "o" not in r:
+                    print(f"replay stock={json.dumps(cs['stock'], sort_keys=True)} run={cs['part']}: not observed "
+                          f"this time ({obs[cs['id']].get('skipped', 'the command was not run again')})")
+                    continue
+                cs["c"] = r["c"]
+                r = r["o"]
+            traces.append({"id": cs["id"], "c": cs["c"], "o": r})
         vd, _ = validate(traces) if traces else ({}, [])
         for k, cs in todo.items():
+            if cs["id"] not in vd:
+                continue
             r = vd[cs["id"]]
             print(f"replay mode={k[0]} case={json.dumps(cs['c'], sort_keys=True)} verdict={r['verdict']} "
                   f"broken={r['labels']} explained_by={[DEV_NAMES.get(d, d) for d in r['explain']]}")
